@@ -125,6 +125,11 @@ func derivedSet(e ssa.Value) map[ssa.Value]bool {
 					switch a := x.Addr.(type) {
 					case *ssa.Alloc:
 						for _, ld := range CellLoads(a) {
+							// in the storing function a load sees this store only if no
+							// other store to the cell lies in between on some path
+							if ld.Parent() == x.Parent() && !storeReachesLoad(x, a, ld) {
+								continue
+							}
 							add(ld)
 						}
 					case *ssa.FreeVar:
@@ -325,4 +330,55 @@ func (p *Program) CheckErrEscape(site ErrSite, pol ErrPolicy) EscapeVerdict {
 		return EscapeVerdict{OK: false, Detail: "no return reachable and no escape of the error found", BadPos: site.Call.Pos()}
 	}
 	return EscapeVerdict{OK: true, Escapes: escapes, Detail: fmt.Sprintf("every non-nil path escapes (%d return paths)", len(res))}
+}
+
+// storeReachesLoad: is there a CFG path from the store st to the load ld (both
+// in one function) on which no other store to the cell a executes?
+func storeReachesLoad(st *ssa.Store, a *ssa.Alloc, ld *ssa.UnOp) bool {
+	scan := func(b *ssa.BasicBlock, from int) (found, killed bool) {
+		for i := from; i < len(b.Instrs); i++ {
+			switch y := b.Instrs[i].(type) {
+			case *ssa.UnOp:
+				if y == ld {
+					return true, false
+				}
+			case *ssa.Store:
+				if y != st && y.Addr == ssa.Value(a) {
+					return false, true
+				}
+			}
+		}
+		return false, false
+	}
+	sb := st.Block()
+	si := 0
+	for i, ins := range sb.Instrs {
+		if ins == ssa.Instruction(st) {
+			si = i + 1
+		}
+	}
+	if f, k := scan(sb, si); f {
+		return true
+	} else if k {
+		return false
+	}
+	seen := map[*ssa.BasicBlock]bool{}
+	work := append([]*ssa.BasicBlock{}, sb.Succs...)
+	for len(work) > 0 {
+		b := work[0]
+		work = work[1:]
+		if seen[b] {
+			continue
+		}
+		seen[b] = true
+		f, k := scan(b, 0)
+		if f {
+			return true
+		}
+		if k {
+			continue
+		}
+		work = append(work, b.Succs...)
+	}
+	return false
 }
